@@ -291,8 +291,13 @@ ZeroCopy(S, e, k, obs) ==
     [] e.op = "b_static" -> noalloc \cup addr(r.len = 0 \/ r.a = -1)
     [] e.op = "b_from_owner" -> noalloc \cup addr(r.len = 0 \/ r.a <= -2)
     [] e.op \in {"b_into_mut", "b_try_into_mut"} ->
-         IF p.u /\ (e.op = "b_into_mut" \/ Ret(e) = 1)
-         THEN noalloc \cup addr(r.len = 0 \/ At(r, p.a, p.off)) ELSE {}
+         \* "uniquely held": the handle says so, or (for the infallible conversion) no other live
+         \* handle is located in its block -- a count that is too high must not turn the
+         \* conversion of the only holder into a copy
+         LET sole == /\ p.a > 0 /\ p.len > 0 /\ p.a \in DOMAIN S.led /\ S.led[p.a].live
+                     /\ ~\E g \in DOMAIN S.view : g # h /\ (S.view[g].a = p.a \/ S.view[g].a2 = p.a)
+         IN IF (p.u \/ (sole /\ e.op = "b_into_mut")) /\ (e.op = "b_into_mut" \/ Ret(e) = 1)
+            THEN noalloc \cup addr(r.len = 0 \/ At(r, p.a, p.off)) ELSE {}
     [] e.op = "m_unsplit" ->
          LET o == S.view[Oth(e)] IN
          IF p.len = 0 THEN noalloc \cup addr(q.len = 0 \/ At(q, o.a, o.off))
@@ -329,6 +334,9 @@ UniqueLaws(S, e, k, obs, led2) ==
 ContractLaws(S, e, E, k, obs) ==
   (IF E.want = "panic" /\ k = "ok" THEN {<<"C13", "must_panic">>} ELSE {})
   \cup (IF k = "abort" THEN {<<"C13", "no_crash">>, <<"C02", "no_crash">>} ELSE {})
+  \* the operation returned and the process died while the harness read the live handles through
+  \* len / capacity / deref / is_unique: no handle "reads exactly its bytes", no truthful answer
+  \cup (IF k = "abort" /\ Ret(e) = -8 THEN {<<"C01", "observe_crash">>, <<"C08", "observe_crash">>} ELSE {})
   \cup (IF k = "panic" /\ (DOMAIN obs # DOMAIN S.view \/
              \E h \in DOMAIN obs \cap DOMAIN S.view :
                 LET p == S.view[h] q == obs[h] IN
